@@ -44,6 +44,75 @@ def MatchAt (R : Byte → Byte → Prop) : List Byte → List Byte → Prop
 def AllocOk (m m1 : Mem) (ret size : Nat) : Prop :=
   Mapped m1 ret size ∧ SameOutside m m1 ret size
 
+/-! ### ISO C 7.4 in the "C" locale, as the classic class table (round 3)
+  One entry per 7-bit code; bits: upper 1, lower 2, digit 4, white-space 8,
+  punctuation 16, control 32, hexadecimal letter 64, the space character 128,
+  blank 256.  `EOF` (-1) and 128..255 belong to no class in the "C" locale. -/
+
+def CL_U : Nat := 1
+def CL_L : Nat := 2
+def CL_D : Nat := 4
+def CL_S : Nat := 8
+def CL_P : Nat := 16
+def CL_C : Nat := 32
+def CL_X : Nat := 64
+def CL_SP : Nat := 128
+def CL_B : Nat := 256
+
+def cLocaleTable : List Nat := [
+  32, 32, 32, 32, 32, 32, 32, 32, 32, 296, 40, 40, 40, 40, 32, 32,
+  32, 32, 32, 32, 32, 32, 32, 32, 32, 32, 32, 32, 32, 32, 32, 32,
+  392, 16, 16, 16, 16, 16, 16, 16, 16, 16, 16, 16, 16, 16, 16, 16,
+  4, 4, 4, 4, 4, 4, 4, 4, 4, 4, 16, 16, 16, 16, 16, 16,
+  16, 65, 65, 65, 65, 65, 65, 1, 1, 1, 1, 1, 1, 1, 1, 1,
+  1, 1, 1, 1, 1, 1, 1, 1, 1, 1, 1, 16, 16, 16, 16, 16,
+  16, 66, 66, 66, 66, 66, 66, 2, 2, 2, 2, 2, 2, 2, 2, 2,
+  2, 2, 2, 2, 2, 2, 2, 2, 2, 2, 2, 16, 16, 16, 16, 32]
+
+/-- the classes of `c` (`c` = EOF or a value of `unsigned char`; anything outside 0..127 has none) -/
+def classOf (c : Int) : Nat := if 0 ≤ c ∧ c < 128 then cLocaleTable.getD c.toNat 0 else 0
+
+/-- `c` is in one of the classes of `mask` -/
+def inClass (c : Int) (mask : Nat) : Bool := classOf c &&& mask != 0
+
+/-- the 257 arguments ISO C allows: EOF (= -1 here, as in the host's <stdio.h>) and 0..255 -/
+def ctypeArg (i : Fin 257) : Int := (i.val : Int) - 1
+
+/-! ### strtok on the list level (round 3): a reference automaton, written with
+  `takeWhile` / `dropWhile` only -/
+
+/-- one call: `l` is the rest of the string from the save pointer on, `D` the
+delimiter set of THIS call.  `none`: only delimiters are left, no token.
+Otherwise: the offset of the token in `l`, the token, and the rest of the
+string behind the delimiter that ended it (`none`: the token ran to the end) -/
+def tokRef (D l : List Byte) : Option (Nat × List Byte × Option (List Byte)) :=
+  match l.dropWhile (fun x => decide (x ∈ D)) with
+  | [] => none
+  | x :: r =>
+    some ((l.takeWhile (fun x => decide (x ∈ D))).length,
+          (x :: r).takeWhile (fun y => decide (y ∉ D)),
+          match (x :: r).dropWhile (fun y => decide (y ∉ D)) with
+          | [] => none
+          | _ :: r3 => some r3)
+
+/-- the results of a sequence of calls, call i with delimiter set `Ds[i]`:
+`some k` = pointer to offset `k` of `l`, `none` = NULL.  After "no token" or a
+token that ran to the end, the rest is empty for all later calls. -/
+def tokHistory : List (List Byte) → List Byte → List (Option Nat)
+  | [], _ => []
+  | D :: Ds, l =>
+    match tokRef D l with
+    | none => none :: (tokHistory Ds []).map (Option.map (l.length + ·))
+    | some (q, t, none) => some q :: (tokHistory Ds []).map (Option.map (q + t.length + ·))
+    | some (q, t, some r) => some q :: (tokHistory Ds r).map (Option.map (q + t.length + 1 + ·))
+
+/-- what the history theorem assumes of the delimiter strings: each is a C string, short enough
+for the fuel, and lies outside `[lo, hi)`, the range of the tokenised string -/
+def DelimsOk (m : Mem) (fuel lo hi : Nat) : List Nat → List (List Byte) → Prop
+  | [], [] => True
+  | d :: ds, D :: Ds => (CStr m d D ∧ D.length < fuel ∧ (d + D.length + 1 ≤ lo ∨ hi ≤ d)) ∧ DelimsOk m fuel lo hi ds Ds
+  | _, _ => False
+
 /-- example memory for the non-vacuity examples in Props.lean: "abc\0" at
 address 8, a 6-byte object at 32, nothing else mapped -/
 def exMem : Mem := ofBufs [(8, [97#8, 98#8, 99#8, 0#8]), (32, [1#8, 2#8, 3#8, 4#8, 5#8, 6#8])]
